@@ -246,7 +246,7 @@ RULES = [
 
 
 from . import shared
-RULES = RULES + shared.bundle('C14', ['gate', 'restart', 'driver', 'norm'], ['kernel'])
+RULES = RULES + shared.bundle('C14', ['gate', 'restart', 'driver', 'norm', 'loops'], ['kernel'])
 from . import folds as _folds
 RULES = RULES + [_folds.fold_rule('C14')]
 from .. import refs as _refs
